@@ -333,7 +333,10 @@ impl ProgramLowerer {
 
                     for atv in &impl_defn.assoc_ty_values {
                         let atv_id = self.associated_ty_value_ids[&(impl_id, atv.name.str.clone())];
-                        let lookup = &self.associated_ty_lookups[&(trait_id, atv.name.str.clone())];
+                        let lookup = self
+                            .associated_ty_lookups
+                            .get(&(trait_id, atv.name.str.clone()))
+                            .ok_or_else(|| RustIrError::MissingAssociatedType(atv.name.clone()))?;
 
                         // The parameters in scope for the associated
                         // type definitions are *both* those from the
